@@ -28,6 +28,10 @@ pub struct WriteCase {
     pub append: bool,
     pub in_lower: bool,
     pub script: Vec<WOp>,
+    /// a second, complete create session on the same file, opened after `split` calls of the
+    /// first script while the first handle stays open (memory-backed stacks: buffered handles)
+    pub second: Vec<WOp>,
+    pub split: u8,
 }
 
 pub fn handle_cfg() -> BoxedStrategy<Cfg> {
@@ -40,8 +44,8 @@ pub fn read_case() -> impl Strategy<Value = ReadCase> {
 }
 
 pub fn write_case() -> impl Strategy<Value = WriteCase> {
-    (handle_cfg(), data_strategy(), any::<bool>(), any::<bool>(), proptest::collection::vec(wop_strategy(), 0..20))
-        .prop_map(|(cfg, initial, append, in_lower, script)| WriteCase { cfg, initial, append, in_lower, script })
+    (handle_cfg(), data_strategy(), any::<bool>(), any::<bool>(), proptest::collection::vec(wop_strategy(), 0..20), prop_oneof![3 => Just(vec![]), 1 => proptest::collection::vec(wop_strategy(), 1..8)], any::<u8>())
+        .prop_map(|(cfg, initial, append, in_lower, script, second, split)| WriteCase { cfg, initial, append, in_lower, script, second, split })
 }
 
 const FILE: &str = "/d/f";
@@ -127,9 +131,10 @@ fn fresh_read(root: &VfsPath) -> Result<Vec<u8>, String> {
 pub fn test_write(case: &WriteCase, st: &mut Stats, counting: bool) -> CaseResult {
     let mk_fail = |msg: String, trace: &[String]| Failure {
         message: format!("{} handle on {}: {}\n  script trace:\n    {}", if case.append { "append" } else { "create" }, case.cfg.render(), msg, trace.join("\n    ")),
-        replay: json!({"kind": "c14-write", "cfg": case.cfg.to_json(), "initial": crate::hist::data_to_json(&case.initial), "append": case.append, "in_lower": case.in_lower, "script": wops_to_json(&case.script)}),
+        replay: json!({"kind": "c14-write", "cfg": case.cfg.to_json(), "initial": crate::hist::data_to_json(&case.initial), "append": case.append, "in_lower": case.in_lower, "script": wops_to_json(&case.script), "second": wops_to_json(&case.second), "split": case.split}),
     };
     let mut trace = vec![];
+    let mut overlapped = false;
     let r = guarded(|| -> Result<bool, String> {
         let mut init = case.initial.clone();
         init.kind = 4 + init.kind % 24; // non-empty
@@ -160,7 +165,29 @@ pub fn test_write(case: &WriteCase, st: &mut Stats, counting: bool) -> CaseResul
                 }
                 Ok(())
             };
-            interesting = run_write_script(&mut h, &mut model, &case.script, allow_seek, &mut trace, &mut check)?;
+            if !case.second.is_empty() && !case.cfg.contains_phys() {
+                // two overlapping sessions on one file: whoever publishes (flush / drop) must
+                // publish exactly its own buffer, whatever the other handle published before
+                let k = (case.split as usize) % (case.script.len() + 1);
+                let a = run_write_script(&mut h, &mut model, &case.script[..k], allow_seek, &mut trace, &mut check)?;
+                {
+                    trace.push("-- second handle (create_file) opened on the same file".into());
+                    let mut h2 = p.create_file().map_err(|e| format!("opening a second handle failed: {}", e))?;
+                    let mut model2: Cursor<Vec<u8>> = Cursor::new(vec![]);
+                    run_write_script(&mut h2, &mut model2, &case.second, true, &mut trace, &mut check)?;
+                    drop(h2);
+                    let got = fresh_read(&root)?;
+                    if got != *model2.get_ref() {
+                        return Err(format!("the second handle was dropped: the file holds {} but its buffer was {}", crate::util::show_bytes(&got), crate::util::show_bytes(model2.get_ref())));
+                    }
+                    trace.push("-- second handle dropped, first handle continues".into());
+                }
+                let b = run_write_script(&mut h, &mut model, &case.script[k..], allow_seek, &mut trace, &mut check)?;
+                interesting = a || b;
+                overlapped = true;
+            } else {
+                interesting = run_write_script(&mut h, &mut model, &case.script, allow_seek, &mut trace, &mut check)?;
+            }
         }
         // dropped: content equals the cursor's buffer
         let got = fresh_read(&root)?;
@@ -187,6 +214,9 @@ pub fn test_write(case: &WriteCase, st: &mut Stats, counting: bool) -> CaseResul
                 if case.in_lower && case.cfg.overlay_layers() >= 2 && case.append {
                     st.label("write:overlay_copy_up_append");
                 }
+                if overlapped {
+                    st.label("write:two_overlapping_sessions");
+                }
                 if nt {
                     st.nontrivial.insert(crate::util::fnv_str(&format!("{:?}", case)));
                     st.label("write:nontrivial");
@@ -198,7 +228,7 @@ pub fn test_write(case: &WriteCase, st: &mut Stats, counting: bool) -> CaseResul
     }
 }
 
-const RULE: &str = "read scripts vec(read(n)|seek(Start|Current|End, offset),0..30) on read handles from Mem/Phys/altroot/overlay (file in upper or lower layer)/EmbeddedFS over contents of 0..70 KiB, offsets concentrated on {0,1,len-1,len,len+1,len+k,-1,-len,-len-1,i64::MIN/MAX,u64::MAX}; write scripts vec(write|seek|flush,0..20) on create and append handles; oracle = std::io::Cursor over the same bytes call by call (seek result, short-read-tolerant read contents, zero-filled gaps), after every flush and after drop a fresh reader returns exactly the cursor's buffer; non-trivial read script = a seek relative to End/Current landing outside [0,len) followed by a read; non-trivial write script = contains an accepted seek; distinct by case hash";
+const RULE: &str = "read scripts vec(read(n)|seek(Start|Current|End, offset),0..30) on read handles from Mem/Phys/altroot/overlay (file in upper or lower layer)/EmbeddedFS over contents of 0..70 KiB, offsets concentrated on {0,1,len-1,len,len+1,len+k,-1,-len,-len-1,i64::MIN/MAX,u64::MAX}; write scripts vec(write|seek|flush,0..20) on create and append handles; oracle = std::io::Cursor over the same bytes call by call (seek result, short-read-tolerant read contents, zero-filled gaps), after every flush and after drop a fresh reader returns exactly the cursor's buffer; one write case in four on memory-backed stacks opens a second create session on the same file while the first handle is open (each publication must be exactly the publishing handle's buffer); non-trivial read script = a seek relative to End/Current landing outside [0,len) followed by a read; non-trivial write script = contains an accepted seek; distinct by case hash";
 
 pub fn replay(v: &Value) -> CaseResult {
     let cfg = Cfg::from_json(v.get("cfg").unwrap_or(&Value::Null)).unwrap_or(Cfg::Mem);
@@ -221,6 +251,8 @@ pub fn replay(v: &Value) -> CaseResult {
                 append: v.get("append").and_then(|x| x.as_bool()).unwrap_or(false),
                 in_lower: v.get("in_lower").and_then(|x| x.as_bool()).unwrap_or(false),
                 script: wops_from_json(v.get("script").unwrap_or(&Value::Null)),
+                second: wops_from_json(v.get("second").unwrap_or(&Value::Null)),
+                split: v.get("split").and_then(|x| x.as_u64()).unwrap_or(0) as u8,
             };
             test_write(&case, &mut st, false)
         }
